@@ -150,7 +150,7 @@ def extend_ext(ext):
         return f
     ext['arr_attrs']['tolist'] = tolist_attr
 
-def setup(I, ktrain, ktest):
+def setup(I, ktrain, ktest, shared=False):
     d = I.fresh('d', IntS); I.assume(d >= 1)
     I.use_axioms('entries', ML.axioms('entries') + local_axioms()); I.use_axioms('ring', ML.axioms('ring'))
     I.cur = {}
@@ -160,6 +160,7 @@ def setup(I, ktrain, ktest):
     for k in range(ktest):
         n = I.fresh(f'n_test{k}', IntS); I.assume(n >= 1); te.append(ML.fresh_mat(I, f'T{k}', (n, d)))
     alpha = I.fresh('alpha', RealS); I.assume(alpha > 0)
+    if shared: te = list(tr)          # rigidities of the training set: the test list holds the very arrays of the training list
     trm = [ML.mat_of(I, a) for a in tr]; tem = [ML.mat_of(I, a) for a in te]
     def stack(ms):
         M = ms[0]
@@ -174,7 +175,7 @@ def setup(I, ktrain, ktest):
 
 def qf(s, R): return at(mul(mul(R, s['Xinv']), T(R)), 0, 0)
 
-def u_lpr(ktrain, ktest):
+def u_lpr(ktrain, ktest, shared=False):
     q = PR + '.local_prediction_rigidity'
     def inv(I, F, ai, g):
         s = I.cur['s']; L = I.A(F['LPR_np']); XT = ML.mat_of(I, F['X_test'])
@@ -182,7 +183,7 @@ def u_lpr(ktrain, ktest):
         return [('[C20]one-slot-per-test-environment', tz(L.shape[0]) == rows(XT)),
                 ('[C20]filled-slots-hold-the-closed-form', ForAll([a], Implies(And(0 <= a, a < ai), L.elem(a) == 1 / qf(s, smul(1 / s['S'], ROWOF(XT, a)))), patterns=[L.elem(a)]))]
     def body(I):
-        s = setup(I, ktrain, ktest); I.cur['s'] = s
+        s = setup(I, ktrain, ktest, shared); I.cur['s'] = s
         r = I.call_func(I.repo.get(q), [list(s['tr']), list(s['te']), s['alpha']], {})
         LPR, rank_diff = r
         I.ob('post[C20]:one-result-array-per-test-structure-in-input-order', BoolVal(isinstance(LPR, list) and len(LPR) == ktest), kind='post')
@@ -193,9 +194,9 @@ def u_lpr(ktrain, ktest):
             I.ob(f'post[C20]:structure-{t}:one-entry-per-environment', And(BoolVal(A.ndim == 1), tz(A.shape[0]) == rows(Tm)), kind='post')
             I.ob(f'post[C20]:structure-{t}:LPR-is-one-over-x-Xinv-x^T-with-the-globally-scaled-environment-features-and-the-per-structure-averaged-training-features',
                  A.elem(e) == 1 / qf(s, smul(1 / s['S'], ROWOF(Tm, e))), kind='post')
-    return Unit(f'local_prediction_rigidity[{ktrain} train,{ktest} test]', body, loops={(q, 2): LoopContract(inv)}, functions=[q])
+    return Unit(f'local_prediction_rigidity[{ktrain} train,{ktest} test{", test list shares its arrays with the training list" if shared else ""}]', body, loops={(q, 2): LoopContract(inv)}, functions=[q])
 
-def u_cpr(ktrain, ktest, ncomp):
+def u_cpr(ktrain, ktest, ncomp, shared=False):
     q = PR + '.componentwise_prediction_rigidity'
     def maskm(s, c):
         lo, hi = s['bounds'][c], s['bounds'][c + 1]
@@ -209,7 +210,7 @@ def u_cpr(ktrain, ktest, ncomp):
             out.append((f'[C20]component-{c}-stays-filled', ForAll([a], Implies(And(0 <= a, a < rows(XT)), L.elem(a, IntVal(c)) == 1 / qf(s, mul(smul(1 / s['S'], ROWOF(XT, a)), maskm(s, c)))), patterns=[L.elem(a, IntVal(c))])))
         return out
     def body(I):
-        s = setup(I, ktrain, ktest); I.cur['s'] = s
+        s = setup(I, ktrain, ktest, shared); I.cur['s'] = s
         cd = [I.fresh(f'comp_dim{c}', IntS) for c in range(ncomp)]
         for v in cd: I.assume(v >= 1)
         I.assume(z3.Sum(cd) == s['d'] if ncomp > 1 else cd[0] == s['d'])          # the components partition the feature vector
@@ -232,9 +233,9 @@ def u_cpr(ktrain, ktest, ncomp):
                      A.elem(e, IntVal(c)) == 1 / qf(s, mul(smul(1 / s['S'], ROWOF(Tm, e)), maskm(s, c))), kind='post')
                 I.ob(f'post[C20]:structure-{t}:component-{c}:CPR-is-the-closed-form-with-the-structure-averaged-features-restricted-to-the-component-block',
                      C.elem(IntVal(t), IntVal(c)) == 1 / qf(s, mul(CMEAN(smul(1 / s['S'], Tm)), maskm(s, c))), kind='post')
-    return Unit(f'componentwise_prediction_rigidity[{ktrain} train,{ktest} test,{ncomp} components]', body, loops={(q, 4): LoopContract(inv)}, functions=[q])
+    return Unit(f'componentwise_prediction_rigidity[{ktrain} train,{ktest} test,{ncomp} components{", test list shares its arrays with the training list" if shared else ""}]', body, loops={(q, 4): LoopContract(inv)}, functions=[q])
 
-UNITS = [lambda: u_cpr(1, 1, 1), lambda: u_cpr(2, 2, 2), lambda: u_lpr(1, 1), lambda: u_lpr(2, 2), lambda: u_lpr(3, 2)]
+UNITS = [lambda: u_cpr(1, 1, 1), lambda: u_cpr(2, 2, 2), lambda: u_lpr(1, 1), lambda: u_lpr(2, 2), lambda: u_lpr(3, 2), lambda: u_lpr(2, 2, True), lambda: u_cpr(2, 2, 2, True)]
 RT = True
 TRUSTED = ["matrix layer + stacking operators VS / ROWOF / CMEAN with their dimension and row laws; np.mean(X**2, axis=0).sum() = ||X||_F^2 / n; np.linalg.pinv, matrix_rank as functions of the matrix",
            "bounded in the NUMBER of structures (list lengths are concrete per unit: 1..3 training, 1..2 test structures); unbounded in environments per structure, feature dimension, alpha",
